@@ -220,7 +220,7 @@ def suite():
             done[mid] = 'not run (the pinned suite does not exercise libdr)'
             continue
         subprocess.call('git checkout -q -- .', shell=True, cwd=wt)
-        if subprocess.call(['git', 'apply', os.path.join(OUT, mid + '.diff')], cwd=wt) != 0:
+        if subprocess.call(['patch', '-p1', '-s', '-f', '-i', os.path.join(OUT, mid + '.diff')], cwd=wt, stdout=subprocess.DEVNULL) != 0:
             done[mid] = 'noapply'
             continue
         if subprocess.call('make -j16 >/dev/null 2>&1', shell=True, cwd=wt) != 0:
